@@ -5,7 +5,7 @@ from sa.effects import Effects
 from sa.terms import C, CallT, P, Sub, SubC, is_call, is_lit, show
 from sa.walker import JSON_TYPES, State, flatten_events
 
-from . import fn_site
+from . import payload_is_isolated, fn_site
 from .signer import SignSignable, agreement, canon_bytes, entry_dict, pubhex_of_private, signature_hex
 from .vs import VSModel, envelope, hexconj, le_facts
 
@@ -39,7 +39,7 @@ def run(ctx):
             ok, why = False, "returns %s" % show(v)[:80]
             break
         d = dict(v[2])
-        if not (is_call(d[C("signed")], "ext:copy.deepcopy") and d[C("signed")][2] == (obj,)):
+        if not payload_is_isolated(p, d[C("signed")], obj):
             ok, why = False, "payload is %s, not a deep copy of the argument" % show(d[C("signed")])[:80]
             break
         if not (is_lit(d[C("signatures")], "dict") and not d[C("signatures")][2]):
